@@ -128,27 +128,24 @@ func values(args []string) error {
 		return err
 	}
 	defer cl.Close()
-	px, err := sut.StartRedis(sut.RedisOpts{Compression: compression("enabled", 32)}, cl.Addrs())
+	px, cs, err := startProxy(cl, compression("enabled", 32), 1)
 	if err != nil {
 		return err
 	}
 	defer sut.StopWithin(px.P, 5*time.Second)
-	sut.WaitRefresh(px.Name, 3*time.Second)
-	c, err := sut.Dial(px.Addr)
-	if err != nil {
-		return err
-	}
+	c := cs[0]
 	defer c.Close()
-	c.Do(2*time.Second, "get", "warm1")
-	c.Do(2*time.Second, "get", "warm2")
 	for _, cmd := range [][]string{{"APPEND", "k", "v"}, {"append", "k", "v"}, {"SETBIT", "k", "1", "1"}, {"getbit", "k", "1"}, {"SETRANGE", "k", "1", "x"},
 		{"GetRange", "k", "0", "1"}, {"EVAL", "return 1", "1", "k"}} {
 		for _, n := range cl.Nodes {
 			n.ClearLog()
 		}
-		v, err := c.Do(3*time.Second, cmd...)
+		v, err := c.Do(replyTO, cmd...)
+		if err != nil {
+			return fmt.Errorf("%s: no reply: %v", cmd[0], err) // not a verdict about compression
+		}
 		r := valResult{Case: "banned " + cmd[0], OK: true}
-		if err != nil || !v.IsErr() {
+		if !v.IsErr() {
 			r.OK, r.Why = false, fmt.Sprintf("expected an error reply, got %v %v", v, err)
 		}
 		time.Sleep(time.Millisecond)
